@@ -674,7 +674,10 @@ static void peer_g2(void) {
         coap_get_data(rp, &len, &data);
         printf("R:%u:", rp->code);
         char eq = '-';
-        if (coap_get_block_b(NULL, rp, COAP_OPTION_BLOCK2, &b)) {
+        if (rp->code != 69) {
+          fputs("-", stdout);       /* error: the diagnostic payload is not compared */
+          len = 0;
+        } else if (coap_get_block_b(NULL, rp, COAP_OPTION_BLOCK2, &b)) {
           printf("%u/%u/%u", b.num, b.m, b.szx);
           if (rp->code == 69 && data) {
             size_t off = (size_t)b.num << (b.szx + 4);
